@@ -41,14 +41,11 @@ class EidField(CborField):
             raise ValueError('No type code for scheme "{}"'.format(parts[0]))
 
         if scheme_type == EidField.TypeCode.dtn:
-            authority = parts[1]
-            path = parts[2]
-            ssp = ''
-            if authority:
-                ssp += '//' + authority
-                if not path.startswith('/'):
-                    path = '/' + path
-            ssp += path
+            # the demux part may contain any character, "?" and "#" too,
+            # so only the scheme is taken from the URI split
+            ssp = x[len(parts[0]) + 1:]
+            if ssp.startswith('//') and '/' not in ssp[2:]:
+                ssp += '/'
 
             return [scheme_type, ssp]
 
